@@ -296,6 +296,52 @@ fn check_entry(
     Ok(shown)
 }
 
+/// constant value of a formula, if it denotes a constant function (evaluated over its own support)
+fn const_value(f: &F) -> Option<bool> {
+    let sup: Vec<usize> = f.support().into_iter().collect();
+    if sup.len() > 16 {
+        return None;
+    }
+    let mut seen = [false, false];
+    for bits in 0..(1u64 << sup.len()) {
+        let v = f.eval(&|i| sup.iter().position(|&s| s == i).map(|j| (bits >> j) & 1 == 1).unwrap_or(false));
+        seen[v as usize] = true;
+    }
+    match seen {
+        [false, true] => Some(true),
+        [true, false] => Some(false),
+        _ => None,
+    }
+}
+
+/// wide ADFs (more than 7 statements) are beyond the truth-table oracle: here the property's own
+/// wording applies - the service must return *the library's* answers, computed in the harness
+fn expected_lib(c: &WebCase, s: Strat) -> Result<Vec<Interp>, String> {
+    use crate::calls::{self, Abs, Call};
+    let text = c.adf.text();
+    let call = match s {
+        Strat::Ground => Call::Grounded,
+        Strat::Complete => Call::Complete,
+        Strat::Stable => Call::Stable,
+        Strat::StableCountingA => Call::CountA,
+        Strat::StableCountingB => Call::CountB,
+        Strat::StableNogood => Call::StableNg(0),
+    };
+    crate::sut::with_parser(&text, crate::sut::Sort::None, |p| -> Result<Vec<Interp>, String> {
+        let names: Vec<String> = p.var_container().names().read().unwrap().clone();
+        let perm = crate::sut::perm_from_names(&names, &c.adf.labels)?;
+        let mut a = adf_bdd::adf::Adf::from_parser(p);
+        match calls::abstract_raw(&calls::exec(&mut a, &call)?, false) {
+            Abs::Interps(v) => {
+                let mut l: Vec<Interp> = v.iter().map(|i| crate::sut::to_logical(&perm, i)).collect::<Result<_, _>>()?;
+                l.sort();
+                Ok(l)
+            }
+            _ => Err("internal".into()),
+        }
+    })?
+}
+
 fn expected(acs: &[F], s: Strat) -> Vec<Interp> {
     let o = Oracle::new(acs);
     let mut e = match s {
@@ -323,16 +369,15 @@ fn check_slot(v: &Value, slot: &str, strategy: Option<Strat>, c: &WebCase, decl:
         None => {
             if got.len() != 1 || got[0].iter().enumerate().any(|(s, t)| {
                 // parse_only shows the unrestricted diagrams: constant iff the function is constant
-                let tt = c.adf.acs[s].tt(c.adf.n());
-                let full = if c.adf.n() == 7 { u128::MAX } else { (1u128 << (1u32 << c.adf.n())) - 1 };
-                (*t == Tv::T) != (tt == full) || (*t == Tv::F) != (tt == 0)
+                let cv = const_value(&c.adf.acs[s]);
+                (*t == Tv::T) != (cv == Some(true)) || (*t == Tv::F) != (cv == Some(false))
             }) {
                 return Err(format!("parse_only must hold exactly one entry with the unrestricted diagrams; got {}", oracle::show_set(&got)));
             }
         }
         Some(st) => {
             got.sort();
-            let exp = expected(&c.adf.acs, st);
+            let exp = if c.adf.n() <= 7 { expected(&c.adf.acs, st) } else { expected_lib(c, st)? };
             if got != exp {
                 return Err(format!(
                     "strategy {}: the service returns {} but the definition gives {}",
@@ -467,7 +512,7 @@ fn c16_check(c: &WebCase, st: &mut Stats) -> CheckResult {
                     return Err(format!("slot {} is filled but the task is still reported as running", s.slot()));
                 }
                 let k = check_slot(&v, s.slot(), Some(*s), c, &decl)?;
-                if k >= 2 || expected(&c.adf.acs, *s).iter().any(|i| i.iter().any(|t| !t.decided())) {
+                if k >= 2 || (c.adf.n() <= 7 && expected(&c.adf.acs, *s).iter().any(|i| i.iter().any(|t| !t.decided()))) {
                     rich += 1;
                 }
                 solved.insert(*s);
@@ -560,10 +605,40 @@ fn c16_check(c: &WebCase, st: &mut Stats) -> CheckResult {
     Ok(outcome)
 }
 
+pub fn c16_check_entry(c: &WebCase, st: &mut Stats) -> CheckResult {
+    c16_check(c, st)
+}
+
+/// only well-formed, mostly wide ADFs (the storage round trip of many statements), few requests
+pub fn web_case_storage() -> BoxedStrategy<WebCase> {
+    web_case()
+        .prop_filter("well-formed", |c| c.kind == CodeKind::WellFormed)
+        .boxed()
+}
+
 fn web_case() -> BoxedStrategy<WebCase> {
     let strat = proptest::sample::select(STRATEGIES.to_vec());
     (
-        gen::adf_small(1, 5).prop_flat_map(|acs| {
+        prop_oneof![
+            9 => gen::adf_small(1, 5),
+            // wide: 2..4 core statements with arbitrary conditions plus 8..10 statements that copy /
+            // negate a core statement or are constant (few models, but 11..14 statements in storage)
+            1 => (gen::adf_small(2, 4), proptest::collection::vec((0u8..4, any::<u16>()), 8..11)).prop_map(|(core, extra)| {
+                let k = core.len();
+                let mut acs = core;
+                for (shape, x) in extra {
+                    let a = F::Atom(gen::pick(x, k));
+                    acs.push(match shape {
+                        0 => F::Top,
+                        1 => F::Bot,
+                        2 => a,
+                        _ => F::not(a),
+                    });
+                }
+                acs
+            }),
+        ]
+        .prop_flat_map(|acs| {
             let n = acs.len();
             (
                 Just(acs),
@@ -606,7 +681,7 @@ pub fn c16(tier: Tier) -> PropSpec {
         id: "C16",
         level: "exploration",
         rule: "the real server binary (built from the current tree) runs against an in-process MongoDB wire-protocol stub; each case = \
-               code (well-formed ADF n<=5 with labels of all classes | grammar-invalid mutant | grammar-valid with an undeclared \
+               code (well-formed ADF n<=5 with labels of all classes, one tenth 'wide' ADFs with 11..14 statements whose expected answers are the library's own, computed in the harness | grammar-invalid mutant | grammar-valid with an undeclared \
                statement) x parsing Naive/Hybrid x a generated request order over the six strategies with repeated solves, interleaved \
                GETs and bursts of solve requests sent without waiting (overlapping tasks), by an anonymous (temporary) user. After add and every solve the slot is polled (bounded) and checked: \
                returned interpretations (root node TOP/BOT/inner per statement) as multiset == definitional answer; every graph: key \
